@@ -522,6 +522,12 @@ func (vc *VC) binop(st *State, op token.Token, a, b Val, ta, tb types.Type) Val 
 			return App("flt."+op.String(), FloatSort, x, y)
 		}
 	}
+	if x.Sort == y.Sort && (op == token.EQL || op == token.NEQ) {
+		if op == token.EQL {
+			return Eq(x, y)
+		}
+		return Not(Eq(x, y))
+	}
 	st.setTaint("unsupported binary operator " + op.String() + " on " + x.Sort.String())
 	if op == token.EQL || op == token.NEQ || op == token.LSS || op == token.GTR || op == token.LEQ || op == token.GEQ {
 		return Fresh("binop", BoolSort)
